@@ -8,9 +8,10 @@ export CARGO_NET_OFFLINE=true
 # C16's Lean input is regenerated from the running code
 mkdir -p lean/RSVerif/Gen
 ./harness/target/release/rsharness c16-gen --out lean/RSVerif/Gen/LazyDeps.lean
-# C08/C09: the usize decision logic is translated from the current source (a failure here is reported by
+# C08/C09 (decision logic) and C06/C07/C12/C17 (work-object bookkeeping) are translated from the current source (a failure here is reported by
 # the checks themselves, not by setup)
 python3 translate/rs2lean.py /repo lean/RSVerif/Gen/SrcEnvelope.lean || true
+python3 translate/rs2lean_work.py /repo lean/RSVerif/Gen/SrcWork.lean || true
 mods=""
 for f in lean/RSVerif/Properties/C*.lean; do
   m=$(basename "$f" .lean)
@@ -19,7 +20,7 @@ done
 ( cd lean && lake build rsmodel )
 # one property at a time: a module that no longer builds against the current /repo (regenerated inputs)
 # must not keep the others from being checked; its own check reports it
-for m in srcmodel $mods; do
+for m in srcmodel srcwork $mods; do
   ( cd lean && lake build $m ) || echo "setup: $m did not build; ./check.py reports it"
 done
 echo setup-ok
